@@ -34,7 +34,7 @@ const ffTermIdx = 6
 
 var ChunkModes = []uint32{1, 2, 3, 4, 5, 7, 1024, 1025}
 
-var posVals = []int{0, 1, 2, 5, 127, 128, 300, 16383, 16384, 1 << 21, 1<<31 - 1}
+var posVals = []int{0, 1, 2, 5, 127, 128, 300, 16383, 16384, 1 << 21, 1<<31 - 1, 1 << 35}
 
 // dv modes of a field within a scenario
 const (
@@ -540,5 +540,22 @@ func genPostingBatch(t *rapid.T, sc *Scenario) Batch {
 		}
 	}
 	fixLocFields(b)
+	return b
+}
+
+// manyTermsBatch: one field with 60..600 distinct terms sharing suffixes (a
+// term dictionary big enough for the FST builder's node cache to matter).
+func manyTermsBatch(t *rapid.T, label string) Batch {
+	k := rapid.SampledFrom([]int{60, 200, 600}).Draw(t, label+":nTerms")
+	nd := rapid.IntRange(1, 4).Draw(t, label+":nDocs")
+	b := make(Batch, nd)
+	for d := range b {
+		f := Field{Name: "a"}
+		for i := 0; i < k; i++ {
+			f.Terms = append(f.Terms, Term{T: fmt.Sprintf("w%03d-%d-commonsuffix", i, d%2), Freq: 1})
+			f.Len++
+		}
+		b[d].Fields = []Field{f}
+	}
 	return b
 }
